@@ -2,6 +2,7 @@
 from __future__ import annotations
 
 import ast
+import re
 
 from sa.pm import Program, dotted, norm, walk_no_nested, calls_in, AnalysisError
 from rules.formulation import conformance
@@ -175,3 +176,32 @@ def check(prog: Program, rep):
                           _ep.loc(_c), self_contained=True)
         else:
             rep.ok("C08.R8", key, "the path length sums the lengths of the path's own edges", _ep.loc(_c))
+    # with a weight superset several given weights can share an edge: the slack bound has to cover their sum
+    _init = prog.own_method("kMinPathError", "__init__")
+    _w = [st for st in ast.walk(_init.node) if isinstance(st, ast.Assign) and any(norm(t) == "self.w_max" for t in st.targets) and "solution_weights_superset" in norm(st.value)]
+    key = "kMinPathError.__init__:slack-bound-with-superset"
+    if not _w:
+        raise AnalysisError("kMinPathError.__init__: w_max is not related to the weight superset")
+    _v = _w[-1].value
+    _sums = [n_ for n_ in ast.walk(_v) if isinstance(n_, ast.Call) and dotted(n_.func) == "sum" and "solution_weights_superset" in norm(n_)]
+    _maxs = [n_ for n_ in ast.walk(_v) if isinstance(n_, ast.Call) and dotted(n_.func) == "max" and n_ is not _v and "solution_weights_superset" in norm(n_) and not any(x in _sums for x in ast.walk(n_))]
+    if _sums and not _maxs:
+        _raw = [s_ for s_ in _sums if s_.args and isinstance(s_.args[0], (ast.Name, ast.Attribute, ast.BoolOp))]
+        if _raw:
+            rep.violation("C08.R8", key, f"`{norm(_raw[0])[:70]}` adds up the caller's weights in their own type: np.uint8 130 + 130 = 4", _init.loc(_w[-1]))
+        else:
+            rep.ok("C08.R8", key, f"w_max covers the sum of the given weights (`{norm(_v)[:80]}`)", _init.loc(_w[-1]))
+    else:
+        rep.violation("C08.R8", key, f"`{norm(_w[-1])[:90]}` extends w_max - the bound of the slacks and of their products - by the *largest* given weight only: several given "
+                      "weights can share an edge, so the error of an edge and the slack one path needs reach their sum (n0->n1 1, n0->n2 2, n1->n2 1, n1->n4 2, n2->n3 1, k=3, "
+                      "superset [11, 11, 11]: total slack 31 reported, 30 is optimal)", _init.loc(_w[-1]))
+    # a route through a single node (a node that is both a start and an end) is a legitimate route: the validity check must not raise on it
+    for cname in ("kMinPathError", "kMinPathErrorCycles"):
+        m = prog.own_method(cname, "is_valid_solution")
+        key = f"{cname}.is_valid_solution:single-node-route"
+        bad = [i for i in ast.walk(m.node) if isinstance(i, ast.If) and re.search(r"len\(\w+\) == 1\b", norm(i.test)) and any(isinstance(x, ast.Raise) for x in ast.walk(i))]
+        if bad:
+            rep.violation("C08.R8", key, f"is_valid_solution() raises under `{norm(bad[0].test)}`: a route through a single node is what get_solution() reports for a node that is both "
+                          "a start and an end (a->b 5, additional_ends=['a'], k=2: [['a','b'], ['a']]), so the check raises ValueError on the model's own optimum", m.loc(bad[0]))
+        else:
+            rep.ok("C08.R8", key, "one-node routes are not rejected", m.loc())
